@@ -5,6 +5,6 @@ cd /repo || exit 2
 git diff --quiet || { echo "/repo has uncommitted changes"; exit 2; }
 git apply "$patch" || exit 2
 for id in "$@"; do
-  /verif/bin/check "$id" quick 2>&1 | grep -E "VIOLATION|KNOWN-FINDING|BUILD-FAILED|^$id " | sed "s/^/[$id] /"
+  VERIF_NO_EVIDENCE=1 /verif/bin/check "$id" quick 2>&1 | grep -E "VIOLATION|KNOWN-FINDING|BUILD-FAILED|^$id " | sed "s/^/[$id] /"
 done
 git -C /repo checkout -- .
